@@ -20,6 +20,8 @@ type zzSaveProg struct {
 	Mon    []string          // symbolic monetary variables (arbitrary non-negative amounts)
 	Bal    []string          // accounts with an arbitrary (possibly negative) opening balance
 	Od     map[string]string // account -> variable naming its bounded overdraft in every send
+	Asset  map[string]string // asset of a monetary variable other than USD/2
+	BalEUR []string          // accounts that also hold an arbitrary EUR/2 balance
 }
 
 var zzSaveProgs = []zzSaveProg{
@@ -41,13 +43,20 @@ var zzSaveProgs = []zzSaveProg{
 	{Name: "save of a sum from one of two ordered sources",
 		Script: "vars {\nmonetary $x\nmonetary $y\nmonetary $m\n}\nsave $x + $y from @b\nsend $m (\n  source = {\n    @a\n    @b\n  }\n  destination = @c\n)\n",
 		Mon:    []string{"x", "y", "m"}, Bal: []string{"a", "b"}},
+	{Name: "a balance() variable of one asset, a send of another asset from the same account",
+		Script: "vars {\nmonetary $u = balance(@a, USD/2)\nmonetary $m\n}\nsend $m (\n  source = @a\n  destination = @b\n)\nsend $u (\n  source = @a\n  destination = @c\n)\n",
+		Mon:    []string{"m"}, Bal: []string{"a"}, BalEUR: []string{"a"}, Asset: map[string]string{"m": "EUR/2"}},
+	{Name: "two balance() variables of two assets on one account",
+		Script: "vars {\nmonetary $u = balance(@a, USD/2)\nmonetary $e = balance(@a, EUR/2)\n}\nsend $e (\n  source = @a\n  destination = @b\n)\nsend $u (\n  source = @a\n  destination = @c\n)\n",
+		Bal:    []string{"a"}, BalEUR: []string{"a"}},
 }
 
 func ZZ_C01SaveN() int { return len(zzSaveProgs) }
 
 func ZZ_C01SaveDesc(i int) string { return zzSaveProgs[i].Name + ": " + zzSaveProgs[i].Script }
 
-// ZZ_C01Save: the floor rule on programs that put funds aside.
+// ZZ_C01Save: the floor rule on programs that put funds aside or read balances of
+// several assets of one account.
 func ZZ_C01Save(shape int) {
 	x := &zzSaveProgs[shape]
 	p, err := compiler.Compile(x.Script)
@@ -61,14 +70,23 @@ func ZZ_C01Save(shape int) {
 		a := verifhook.BigInt("v_" + name)
 		verifhook.Assume(a.Sign() >= 0)
 		val[name] = a
-		vars[name] = "USD/2 " + a.String()
+		asset := "USD/2"
+		if as, ok := x.Asset[name]; ok {
+			asset = as
+		}
+		vars[name] = asset + " " + a.String()
 	}
 	store := StaticStore{}
 	run := map[string]*big.Int{}
 	for _, a := range x.Bal {
 		b := verifhook.BigInt("bal_" + a)
-		run[a] = b
+		run[a+"|USD/2"] = b
 		store[a] = &AccountWithBalances{Account: ledger.Account{Address: a, Metadata: metadata.Metadata{}}, Balances: map[string]*big.Int{"USD/2": b}}
+	}
+	for _, a := range x.BalEUR {
+		b := verifhook.BigInt("eur_" + a)
+		run[a+"|EUR/2"] = b
+		store[a].Balances["EUR/2"] = b
 	}
 	m := NewMachine(*p)
 	m.Printer = func(c chan machine.Value) {
@@ -95,7 +113,7 @@ func ZZ_C01Save(shape int) {
 	for _, po := range res.Postings {
 		verifhook.Assert(po.Amount.Sign() >= 0, "C01 posting amount non-negative")
 		if po.Source != "world" {
-			bal, known := run[po.Source]
+			bal, known := run[po.Source+"|"+po.Asset]
 			if !known {
 				bal = zzZero
 			}
@@ -104,13 +122,13 @@ func ZZ_C01Save(shape int) {
 				od = val[v]
 			}
 			floor := verifhook.Max(zzZero, zzAdd(bal, od))
-			verifhook.Assert(verifhook.Le(po.Amount, floor), "C01 posting within balance plus granted overdraft (save must not create funds): "+x.Name)
-			run[po.Source] = zzSub(bal, po.Amount)
+			verifhook.Assert(verifhook.Le(po.Amount, floor), "C01 posting within balance plus granted overdraft: "+x.Name)
+			run[po.Source+"|"+po.Asset] = zzSub(bal, po.Amount)
 		}
-		if bal, known := run[po.Destination]; known {
-			run[po.Destination] = zzAdd(bal, po.Amount)
+		if bal, known := run[po.Destination+"|"+po.Asset]; known {
+			run[po.Destination+"|"+po.Asset] = zzAdd(bal, po.Amount)
 		} else if po.Destination != "world" {
-			run[po.Destination] = po.Amount
+			run[po.Destination+"|"+po.Asset] = po.Amount
 		}
 	}
 	verifhook.Canary()
